@@ -360,8 +360,13 @@ def oriented(i: ast.If, want: str):
     negation (sa/canon.py flips `x is not None` / `x != y` / `x not in y` / `not x` tests that have an else);
     None when the test is neither."""
     t = norm(i.test)
+    orelse = i.orelse
+    if not orelse and i.body and _leaves(i.body):
+        # guard-clause spelling (the canon pass turns `if c: <exit> else: B` into it): the other branch is
+        # what follows the `if` in its block
+        orelse = _tail_after(i)
     if t == want:
-        return i.body, i.orelse
+        return i.body, orelse
     neg = {" is not ": " is ", " != ": " == ", " not in ": " in "}
     pos = {v: k for k, v in neg.items()}
     cands = set()
@@ -373,8 +378,31 @@ def oriented(i: ast.If, want: str):
     else:
         cands.add("not " + want)
     if t in cands:
-        return i.orelse, i.body
+        return orelse, i.body
     return None
+
+
+def _leaves(stmts) -> bool:
+    s = stmts[-1]
+    if isinstance(s, (ast.Return, ast.Raise, ast.Continue, ast.Break)):
+        return True
+    if isinstance(s, ast.If) and s.orelse:
+        return _leaves(s.body) and _leaves(s.orelse)
+    return False
+
+
+def _tail_after(st: ast.stmt) -> list:
+    p = parent(st)
+    if p is None:
+        return []
+    blocks = [getattr(p, f, None) for f in ("body", "orelse", "finalbody")]
+    if isinstance(p, ast.Try):
+        blocks += [h.body for h in p.handlers]
+    for b in blocks:
+        if isinstance(b, list) and any(x is st for x in b):
+            k = next(i_ for i_, x in enumerate(b) if x is st)
+            return b[k + 1:]
+    return []
 
 
 def bind_args(call: ast.Call, fn: ast.FunctionDef, skip_self: bool = False) -> dict[str, ast.AST]:
